@@ -188,6 +188,15 @@ func (e *Evidence) Plan(c *Ctx) []hist.TxSpec {
 				// the frozen validator tries everything it must not be able to do
 				v := r.target
 				out = append(out, Build(c, "STAKE", StakeMsg(v, "10"), "stake while frozen (must fail)", &v.Stake, ConsAccount(v)))
+				// ... including accusing somebody else: it is not an active validator any more
+				{
+					other := gen[3]
+					if other == v {
+						other = gen[2]
+					}
+					fr := &allegReq{id: fmt.Sprintf("%s-fr-%d", e.Tag, c.H), target: other, plan: "stall", created: c.H, voted: map[string]bool{}}
+					out = append(out, e.allege(c, v, fr, "allegation opened by the validator that was found guilty two blocks ago (must fail)"))
+				}
 				out = append(out, Build(c, "UNSTAKE", &staking.Unstake{ValidatorAddress: v.ValAddr, StakeAddress: v.Stake.Addr, Stake: txb.Amt("OLT", "10")}, "unstake while frozen (must fail)", &v.Stake, ConsAccount(v)))
 				out = append(out, Build(c, "WITHDRAW", &staking.Withdraw{ValidatorAddress: v.ValAddr, StakeAddress: v.Stake.Addr, Stake: txb.Amt("OLT", "1")}, "withdraw while frozen (must fail)", &v.Stake, ConsAccount(v)))
 				// ... and the same withdrawal naming, as the validator, another address its operator holds the key of
